@@ -626,16 +626,19 @@ def configs(tier):
         out.append(dict(n=2, faults=1, excs=["RenderError", "KeyboardInterrupt"], tty=False))
         out.append(dict(n="I2", faults=1, excs=[], tty=False, stdout_faults=True))
     else:
+        # (load balance: one configuration runs on one core; 2 faults x the rich operation set x 3 frames is 1.2M
+        #  transitions / 10 minutes, so two faults go with the base operation set and the rich set with one fault)
         for n in (2, 3, "I2", "I3"):
-            out.append(dict(n=n, faults=2, excs=list(EXCS_MORE if n != 3 else EXCS), rich=True))
-            # (3 frames x the rich operation set x stdout faults is ~1M transitions in one configuration)
-            out.append(dict(n=n, faults=1, excs=["RenderError", "KeyboardInterrupt"], rich=n != 3, tty=n in (3, "I2"),
-                            stdout_faults=True))
+            out.append(dict(n=n, faults=2, excs=list(EXCS_MORE if n in (2, "I2") else EXCS)))
+            out.append(dict(n=n, faults=1, excs=list(EXCS_MORE if n != 3 else EXCS), rich=True))
+            out.append(dict(n=n, faults=1, excs=["RenderError", "KeyboardInterrupt"], rich=n in ("I2", "I3"),
+                            tty=n in (3, "I2"), stdout_faults=True))
+        out.append(dict(n="I2", faults=2, excs=["RenderError", "KeyboardInterrupt"], rich=True))
         out.append(dict(n=2, faults=3, excs=list(EXCS)))
         out.append(dict(n="I2", faults=3, excs=list(EXCS)))
         out.append(dict(n=2, faults=2, excs=["RenderError", "KeyboardInterrupt"], stdout_faults=True))
         out.append(dict(n="I2", faults=1, excs=list(EXCS), rich=True, stdout_faults=True))
-        out.append(dict(n=4, faults=1, excs=list(EXCS), rich=True))
+        out.append(dict(n=4, faults=1, excs=list(EXCS)))
         out.append(dict(n="I4", faults=1, excs=list(EXCS), rich=True))
         out.append(dict(n=1, faults=2, excs=list(EXCS_MORE), rich=True, stdout_faults=True))
         out.append(dict(n=1, faults=1, excs=list(EXCS_MORE), rich=True, tty=False))
